@@ -73,14 +73,54 @@ def eval_const(node, env):
     raise Reject("unsupported constant expression %s" % ast.dump(node)[:80])
 
 
+_RUNTIME_CONSTS = {}
+
+
+def runtime_class_constants():
+    """The class-level attributes of Calendar as the package itself computes them (vars(Calendar) after import, in
+    a subprocess): how the class body spells its tables (literals, products, slices, a loop filling MODES) does not
+    matter, only the values do.  Instance attributes assigned by set_mode are not in vars(Calendar)."""
+    if REPO in _RUNTIME_CONSTS:
+        return _RUNTIME_CONSTS[REPO]
+    import json
+    import subprocess
+    code = (
+        "import sys, json; sys.path.insert(0, %r)\n"
+        "from metomi.isodatetime.data import Calendar\n"
+        "def enc(v):\n"
+        "    if isinstance(v, bool) or v is None or isinstance(v, (int, str)): return v\n"
+        "    if isinstance(v, (tuple, list)): return [enc(x) for x in v]\n"
+        "    if isinstance(v, dict) and all(isinstance(k, str) for k in v): return {'__dict__': [[k, enc(x)] for k, x in v.items()]}\n"
+        "    return {'__opaque__': type(v).__name__}\n"
+        "print(json.dumps({k: enc(v) for k, v in vars(Calendar).items() if k.isupper()}))\n" % REPO)
+    r = subprocess.run([sys.executable, "-c", code], capture_output=True, text=True, timeout=60)
+    if r.returncode != 0:
+        raise Reject("the package cannot be imported to read class Calendar: " + r.stderr.strip()[-200:])
+
+    def dec(v):
+        if isinstance(v, list):
+            return tuple(dec(x) for x in v)
+        if isinstance(v, dict) and "__dict__" in v:
+            return {k: dec(x) for k, x in v["__dict__"]}
+        return v
+    env = {k: dec(v) for k, v in json.loads(r.stdout).items()}
+    _RUNTIME_CONSTS[REPO] = env
+    return env
+
+
 def calendar_class_constants(tree):
+    """(class-level constants of Calendar, its ast.ClassDef).  Values come from the imported package; the AST is used
+    for set_mode and to insist that every constant is bound in the class body itself."""
     for node in tree.body:
         if isinstance(node, ast.ClassDef) and node.name == "Calendar":
-            env = {}
+            bound = set()
             for stmt in node.body:
-                if isinstance(stmt, ast.Assign) and len(stmt.targets) == 1 \
-                        and isinstance(stmt.targets[0], ast.Name):
-                    env[stmt.targets[0].id] = eval_const(stmt.value, env)
+                if isinstance(stmt, (ast.FunctionDef, ast.AsyncFunctionDef, ast.ClassDef)):
+                    continue
+                for n in ast.walk(stmt):
+                    if isinstance(n, ast.Name) and isinstance(n.ctx, ast.Store):
+                        bound.add(n.id)
+            env = {k: v for k, v in runtime_class_constants().items() if k in bound}
             return env, node
     raise Reject("class Calendar not found")
 
@@ -298,9 +338,10 @@ def main():
     import translate_effects
     import translate_durtext
     import translate_code
+    import translate_code2
     import translate_code3
     for g in (translate_grammar.gen_grammar, translate_cache.gen_cache_table, translate_effects.gen_effects,
-              translate_durtext.gen_durtext, translate_code.gen_code, translate_code3.gen_code3):
+              translate_durtext.gen_durtext, translate_code.gen_code, translate_code2.gen_code2, translate_code3.gen_code3):
         if g not in GENERATORS:
             GENERATORS.append(g)
     changed = [g.__name__ for g in GENERATORS if g()]
